@@ -97,6 +97,14 @@ def stream_calls(node):
     return out
 
 
+def _acc_name(t):
+    """an accumulator is a local, or one field of a local accumulator struct (`acc.ftyp`, `parts.moofs`)"""
+    ps = t.split(".")
+    if len(ps) >= 2 and ps[0] not in ("self",):
+        return ps[0] + "." + ps[1]
+    return ps[0]
+
+
 def writes_of(node):
     """accumulators written in a HIR subtree: set of (local name, key) — key is a constant first argument for inserts"""
     out = set()
@@ -105,14 +113,14 @@ def writes_of(node):
         if k in ("assign", "assignop"):
             t = hirq.path_str(m["l"])
             if t:
-                out.add((t.split(".")[0], None))
+                out.add((_acc_name(t), None))
         elif k == "mcall" and m["m"] in ("push", "insert", "extend", "extend_from_slice", "push_str"):
             t = hirq.path_str(m["recv"])
             if t:
                 key = None
                 if m["m"] == "insert" and m["args"]:
                     key = hirq.expr_str(m["args"][0])
-                out.add((t.split(".")[0], key))
+                out.add((_acc_name(t), key))
     return out
 
 
@@ -173,6 +181,30 @@ def run(fx, chk, tier):
                             else:
                                 arms2.append(a)
                         disp = ("match", {"arms": arms2})
+                        break
+            if disp is None:
+                # the whole dispatch moved into a local function that receives the child's type and size
+                for m, ps in hirq.walk(loop["body"]):
+                    if m.get("k") not in ("call", "mcall"):
+                        continue
+                    g = fx.fns.get(m.get("resolved") or m.get("fn"))
+                    if g is None or hirq.body_root(g) is None:
+                        continue
+                    args_ = ([m["recv"]] if m.get("k") == "mcall" else []) + list(m.get("args", []))
+                    names_ = [hirq.path_str(hirq.strip_wrappers(a)) for a in args_]
+                    if nm not in names_:
+                        continue
+                    gparams = [p_.get("name") for p_ in (g.get("hir") or {}).get("params", [])]
+                    if len(gparams) != len(args_) or not gparams[names_.index(nm)]:
+                        continue
+                    pnm = gparams[names_.index(nm)]
+                    psz = gparams[names_.index(sz)] if sz in names_ else None
+                    for m2, _ in hirq.walk(hirq.body_root(g)):
+                        if m2.get("k") == "match" and m2.get("src") == "match" and hirq.path_str(m2["scrut"]) == pnm:
+                            disp = ("match", m2)
+                            nm, sz = pnm, psz
+                            break
+                    if disp is not None:
                         break
             if disp is None:
                 chk.bad("R1", key + "|dispatch", "box-walk loop without a recognisable dispatch on the child type", site)
